@@ -79,7 +79,10 @@ void DynamicConstructorDataGlobal::reloadPoints(std::function<int(int)> getNumPo
 
 void DynamicConstructorDataGlobal::clearTesnors(){
     for(auto t = tensors.begin(), p = tensors.before_begin(); t != tensors.end(); t++){
-        if (t->weight >= 0.0){
+        // a tensor that already holds delivered samples keeps its record: the samples are found through it when the tensor becomes admissible,
+        // erasing it would leave them parked until (and unless) another list of candidates is requested
+        bool has_samples = t->loaded.empty() or std::any_of(t->loaded.begin(), t->loaded.end(), [](bool b)->bool{ return b; });
+        if (t->weight >= 0.0 and not has_samples){
             tensors.erase_after(p);
             t = p;
         }else{
@@ -98,6 +101,12 @@ MultiIndexSet DynamicConstructorDataGlobal::getInitialTensors() const{
 }
 
 void DynamicConstructorDataGlobal::addTensor(const int *tensor, std::function<int(int)> getNumPoints, double weight){
+    for(auto &t : tensors){ // a record kept by clearTesnors() is not duplicated, it only receives the new weight
+        if (std::equal(t.tensor.begin(), t.tensor.end(), tensor)){
+            if (t.weight >= 0.0) t.weight = weight;
+            return;
+        }
+    }
     tensors.emplace_front(TensorData{
                           weight,
                           std::vector<int>(tensor, tensor + num_dimensions),
